@@ -114,7 +114,18 @@ pub fn task(cfg: GenCfg) -> BoxedStrategy<Vec<Stmt>> {
 
 pub fn cmd(cfg: GenCfg) -> BoxedStrategy<Cmd> {
     if cfg.legacy {
-        return prop::collection::vec(block(cfg).prop_map(|t| Cmd::Async(0, t)), 1..3).prop_map(|mut v| if v.len() == 1 { v.pop().unwrap() } else { Cmd::All(v) }).boxed();
+        // tasks, some of them (or all of them together) behind the capability's `map_event`
+        let one = (block(cfg), 0u8..5).prop_map(|(t, m)| if m == 0 { Cmd::MapEvent(0, Box::new(Cmd::Async(0, t))) } else { Cmd::Async(0, t) });
+        return (prop::collection::vec(one, 1..3), 0u8..6)
+            .prop_map(|(mut v, m)| {
+                let c = if v.len() == 1 { v.pop().unwrap() } else { Cmd::All(v) };
+                if m == 0 {
+                    Cmd::MapEvent(0, Box::new(c))
+                } else {
+                    c
+                }
+            })
+            .boxed();
     }
     let mut leaves: Vec<(u32, BoxedStrategy<Cmd>)> = vec![
         (1, Just(Cmd::Done).boxed()),
